@@ -19,4 +19,14 @@ CLAIMS = {
                 note="Oracle = api.proto/api_options.proto parsed by ground/protoparse.py; call-site classes resolved statically (unresolved => unsupported, never pass)."),
 }
 
+CLAIMS["C14"] = dict(category="proof", technique="ground obligations over model.py AST vs api.proto text (complete enumeration) + per-enum-class contracts on the real APIIntEnum.convert/convert_list (loop invariant) discharged by z3; bounded native stand-ins for from_pb/round-trip/float rule",
+    text="Proved: every model enum paired with a wire enum has exactly the wire numbers, matching names, no aliases; every model class built from a wire message has exactly its field names; "
+         "convert/convert_list of each of the 29 enum classes return the member with that number / None / drop unknown numbers, for all integers and all lists. "
+         "Bounded only (reported under coverage.bounded, not counted as proved): from_pb value preservation and to_dict/from_dict round trip on generated messages, 7-significant-digit rounding on sampled float32 patterns.",
+    note=TB + " enum lookup and dataclasses behave as documented (A-LIB). One open known finding (F7, UpdateCommand.INSTALL name).")
+CLAIMS["C15"] = dict(category="proof", technique="one generated contract per command method (expected request derived from the message descriptor + the has_<field> rule of the statement), real method bodies symbolically executed with symbolic optional arguments, z3; native replay of counter-models",
+    text="For each of the 18 entity command methods: exactly one request of the right class is handed to the connection, key carried, each optional argument's value and presence flag exactly when supplied (None vs falsy distinguished symbolically, all 2^n subsets in one query per path), "
+         "every other field at its default, ms conversion, rgb split, legacy cover/away encodings by negotiated version; on a send failure nothing else is sent. execute_service is a bounded native stand-in.",
+    note=TB + " float32 rounding uninterpreted (f32 on both sides); integer arguments assumed to fit their field. One open known finding (F8, lock_command has_code).")
+
 NOT_APPLICABLE = {}
